@@ -110,16 +110,17 @@ class ManualInterval(BaseInterval):
         # Avoid overhead of preparing array if both limits have been specified
         # manually, for performance.
 
+        # limits given as NumPy / torch integers would make later arithmetic (vmax - vmin) wrap
         if self.vmin is not None and self.vmax is not None:
-            return self.vmin, self.vmax
+            return float(self.vmin), float(self.vmax)
 
         # Make sure values is a Numpy array
         values = np.asarray(values).ravel()
 
         # Filter out invalid values (inf, nan)
         values = values[np.isfinite(values)]
-        vmin = float(np.min(values)) if self.vmin is None else self.vmin
-        vmax = float(np.max(values)) if self.vmax is None else self.vmax
+        vmin = float(np.min(values)) if self.vmin is None else float(self.vmin)
+        vmax = float(np.max(values)) if self.vmax is None else float(self.vmax)
 
         return vmin, vmax
 
@@ -141,17 +142,19 @@ class CenteredInterval(BaseInterval):
     half_range: float | None = None
 
     def get_limits(self, values: NDArray) -> tuple[float, float]:
+        # centre and half range given as NumPy / torch integers would wrap in vcenter -/+ half_range
+        vcenter = float(self.vcenter)
         if self.half_range is not None:
-            return self.vcenter - self.half_range, self.vcenter + self.half_range
+            return vcenter - float(self.half_range), vcenter + float(self.half_range)
 
         values = np.asarray(values).ravel()
         values = values[np.isfinite(values)]
         vmin = float(np.min(values))
         vmax = float(np.max(values))
 
-        half_range = np.maximum(np.abs(vmin - self.vcenter), np.abs(vmax - self.vcenter))
+        half_range = np.maximum(np.abs(vmin - vcenter), np.abs(vmax - vcenter))
 
-        return self.vcenter - half_range, self.vcenter + half_range
+        return vcenter - half_range, vcenter + half_range
 
 
 @dataclass
